@@ -33,7 +33,6 @@ def walkOp (j : Json) : Except String Json := do
   let fs : FS String := { dirs := dirs, inJail := fun c => jail.contains c, hasToml := fun c => toml.contains c }
   let fuel := fs.fuel
   match walk fs root fuel with
-  | .error .runtimeError => pure (Json.mkObj [("exc", "RuntimeError")])
   | .error .fuel => pure (Json.mkObj [("exc", "fuel"), ("fuel", fuel)])
   | .ok st =>
     pure (Json.mkObj [
